@@ -242,6 +242,7 @@ class ParseModel(object):
                     self.square.append((name, a))
         if not self.TAG or not self.DEP:
             raise AnalysisError('%s: score matrices over the tag/dep parameters not found' % H)
+        self.member_init = {}
         self.estimate = self._estimate_object(locals_, ctor_args)
         self.agenda = self._one_local(lambda d: 'priority_queue<parsing::cell_item' in (d.type or '') or (d.dtype or '').startswith('std::priority_queue<parsing::cell_item'),
                                       'agenda (priority_queue<cell_item>)')
@@ -428,7 +429,12 @@ class ParseModel(object):
             body = cxx.body_of(ct)
             calls = [st for st in body.kids if st.kind == 'CallExpr']
             cenv = cxx.Env(ct)
-            if not any(term(st, cenv)[1] == 'compute_outside_probabilities' for st in calls):
+            fields = [k for k in rec.kids if k.kind == 'FieldDecl']
+            active = any(term(st, cenv)[1] == 'compute_outside_probabilities' for st in calls)
+            # ... or a plain record of the tables that the caller fills itself (o.tag, o.best_dep[t] = ..): its members
+            # are read as locals all the same
+            passive = not active and not body.kids and sum(1 for f_ in fields if 'matrix' in (f_.type or '')) == 2
+            if not active and not passive:
                 continue
             cparams = [p_.name for p_ in ct.kids if p_.kind == 'ParmVarDecl']
             bind = {V(p_): unmove(a_) for p_, a_ in zip(cparams, args)}
@@ -454,6 +460,7 @@ class ParseModel(object):
                     sums.append((syn, t[2][0][1], t[2][2]))
                 else:
                     member[ini.name] = V(syn)
+                    self.member_init[syn] = t
             # locals of the constructor body (`const unsigned length = v.size();`) are inlined by its environment
             decl_stmt = [st for st in self.top if st.kind == 'DeclStmt' and any(k is d for k in st.kids)]
             if not decl_stmt:
@@ -470,13 +477,17 @@ class ParseModel(object):
                     body_t = cxx.summarise_callable(k)
                     if body_t is not None:
                         methods[k.name] = ([p_.name for p_ in cxx.params_of(k)], resolve(body_t))
-            if len(outside) != 2 or not methods:
+            if (active and len(outside) != 2) or not methods:
                 continue
             for syn, dims in squares:
                 self.square.append((syn, dims))
                 locals_[syn] = d
             for syn, _, _ in sums:
                 locals_[syn] = d
+            for syn in self.member_init:
+                locals_.setdefault(syn, d)
+            # outside the class its members are reached as o.member: the same locals
+            self.env.flat_objects = dict(getattr(self.env, 'flat_objects', {}), **{name: {f_.name: member.get(f_.name, V('%s::%s' % (name, f_.name))) for f_ in fields}})
             # the object's accessors only read: a local initialised by one of them is the expression it returns
             cxx.PURE_METHODS.update(methods)
             return {'name': name, 'outside': outside, 'methods': methods, 'sums': sums, 'decl': d}
